@@ -28,6 +28,8 @@ type dEvent struct {
 	ro      bool
 	release bool
 	clock   []int // clock[t] = 1 + index of the last event of thread t that happens-before-or-is this one
+	before  []int // the clock without the event itself
+	mem     []vrt.MemAcc // plain field accesses made by the transition (noted by instrumented code)
 }
 
 type dNode struct {
@@ -36,6 +38,8 @@ type dNode struct {
 	backtrack map[key]bool
 	done      map[key]bool
 	sleep     map[key]bool
+	sleepMem  map[key][]vrt.MemAcc // plain accesses of each sleeping transition (known from the sibling run that executed it)
+	memOf     map[key][]vrt.MemAcc // plain accesses of each alternative executed from this node
 	chosen    int // index into alts
 }
 
@@ -117,7 +121,7 @@ func DPOR(body Body, opt Opt) Res {
 			raceI := -1
 			for x := len(events) - 1; x >= 0; x-- {
 				e := &events[x]
-				if !depEv(e, &ev) {
+				if !depEv(e, &ev) && !memVsOp(e.mem, ev.objs, ev.ro) {
 					continue
 				}
 				ordered := e.tid < len(before) && before[e.tid] > x
@@ -138,10 +142,50 @@ func DPOR(body Body, opt Opt) Res {
 			clk = grow(clk, tid+1)
 			clk[tid] = i + 1
 			ev.clock = clk
+			ev.before = before
 			events = append(events, ev)
 			threadClock[tid] = clk
 			if partner >= 0 {
 				threadClock[partner] = append([]int(nil), clk...)
+			}
+		}
+		// flush attaches the plain field accesses noted while the last transition ran to its
+		// event, orders it after the conflicting earlier events and turns the latest
+		// unordered conflict (a data race: two threads, one address, at least one write,
+		// no happens-before) into a backtrack point like any other race.
+		flush := func() {
+			accs := vrt.TakeAccs()
+			if len(accs) == 0 || len(events) == 0 {
+				return
+			}
+			i := len(events) - 1
+			ev := &events[i]
+			ev.mem = append(ev.mem, accs...)
+			if i < len(stack) {
+				nd := stack[i]
+				if nd.memOf == nil {
+					nd.memOf = map[key][]vrt.MemAcc{}
+				}
+				nd.memOf[nd.alts[nd.chosen].k] = ev.mem
+			}
+			raceI := -1
+			clk := ev.clock
+			for x := i - 1; x >= 0; x-- {
+				e := &events[x]
+				if !memVsMem(e.mem, accs) && !memVsOp(accs, e.objs, e.ro) {
+					continue
+				}
+				ordered := e.tid < len(clk) && clk[e.tid] > x
+				if raceI < 0 && e.tid != ev.tid && e.tid != ev.partner && !ordered {
+					raceI = x
+				}
+				clk = join(clk, e.clock)
+			}
+			ev.clock = clk
+			threadClock[ev.tid] = clk
+			if raceI >= 0 && raceI < len(stack) {
+				res.MemRaces++
+				addBacktrack(stack[raceI], events, raceI, i, ev.tid, ev.before)
 			}
 		}
 		// checkPending: at every state, the *pending* operation of every live thread -
@@ -157,15 +201,33 @@ func DPOR(body Body, opt Opt) Res {
 		}
 		vrt.S.EndHook = func() {
 			if !blocked {
+				flush()
 				checkPending()
 			}
 		}
 		var curSleep map[key]bool // sleep set for the next node to be created
+		var curSleepMem map[key][]vrt.MemAcc
 		ch := func(cur *vrt.Thread, alts []vrt.Alt) int {
 			if blocked {
 				return 0
 			}
+			flush()
 			i := len(events)
+			if i > 0 && curSleep != nil {
+				// a sleeping transition whose plain accesses conflict with what the last
+				// transition just did (known only now) is woken up
+				last := &events[i-1]
+				for k := range curSleep {
+					var objs []uintptr
+					ro := true
+					if op := vrt.PendingOp(k.tid); op != nil {
+						objs, ro, _ = op.Footprint()
+					}
+					if classVsClass(curSleepMem[k], last.mem) || memVsOp(last.mem, objs, ro) {
+						delete(curSleep, k)
+					}
+				}
+			}
 			if i >= prefixLen {
 				checkPending()
 			}
@@ -178,7 +240,7 @@ func DPOR(body Body, opt Opt) Res {
 					return 0
 				}
 			} else {
-				n = &dNode{enabledT: map[int]bool{}, backtrack: map[key]bool{}, done: map[key]bool{}, sleep: curSleep}
+				n = &dNode{enabledT: map[int]bool{}, backtrack: map[key]bool{}, done: map[key]bool{}, sleep: curSleep, sleepMem: curSleepMem}
 				if n.sleep == nil {
 					n.sleep = map[key]bool{}
 				}
@@ -197,6 +259,20 @@ func DPOR(body Body, opt Opt) Res {
 					}
 				}
 				if c < 0 {
+					if os.Getenv("VX_DEBUG") != "" {
+						t := ""
+						for x := prefixLen - 3; x < len(stack); x++ {
+							if x >= 0 {
+								a := stack[x].alts[stack[x].chosen]
+								t += fmt.Sprintf(" [%d]t%d.%s", x, a.k.tid, a.name)
+							}
+						}
+						fmt.Fprintf(os.Stderr, "BLOCKED at %d (prefix %d):%s | alts:", i, prefixLen, t)
+						for _, a := range n.alts {
+							fmt.Fprintf(os.Stderr, " t%d.%s(mem %v)", a.k.tid, a.name, n.sleepMem[a.k])
+						}
+						fmt.Fprintln(os.Stderr)
+					}
 					blocked = true
 					vrt.Fail("sleep-blocked")
 					return 0
@@ -214,13 +290,23 @@ func DPOR(body Body, opt Opt) Res {
 			// sleep set of the successor: (sleep ∪ done) filtered by independence with a
 			if i >= prefixLen-1 {
 				z := map[key]bool{}
+				zm := map[key][]vrt.MemAcc{}
 				for k := range n.sleep {
 					z[k] = true
+					zm[k] = n.sleepMem[k]
 				}
 				for k := range n.done {
 					z[k] = true
+					zm[k] = n.memOf[k]
 				}
 				curSleep = filt(z, ainfo{k: altKey(a), op: a.Op})
+				aobjs, aro, _ := a.Op.Footprint()
+				for k := range curSleep {
+					if classVsObjs(zm[k], aobjs, aro) {
+						delete(curSleep, k)
+					}
+				}
+				curSleepMem = zm
 				if opt.NoSleep {
 					curSleep = nil
 				}
@@ -277,6 +363,64 @@ func DPOR(body Body, opt Opt) Res {
 	return res
 }
 
+// memVsMem: two sets of plain accesses conflict (one address, at least one write).
+func memVsMem(a, b []vrt.MemAcc) bool {
+	for _, x := range a {
+		for _, y := range b {
+			if x.Addr == y.Addr && (x.Write || y.Write) {
+				return true
+			}
+		}
+	}
+	return false
+}
+
+// classVsClass: conflict between the plain accesses of a sleeping transition (recorded in
+// an earlier execution, where heap addresses were different) and those of the transition
+// just executed, judged per (struct type, field) - an over-approximation of "same address"
+// that can only wake a sleeper too often.
+func classVsClass(a, b []vrt.MemAcc) bool {
+	for _, x := range a {
+		for _, y := range b {
+			if x.Class == y.Class && (x.Write || y.Write) {
+				return true
+			}
+		}
+	}
+	return false
+}
+
+// classVsObjs: the plain accesses of a sleeping transition against the words an executed
+// synchronisation operation (an atomic) touches, related through the field class of those
+// words in the current execution.
+func classVsObjs(m []vrt.MemAcc, objs []uintptr, ro bool) bool {
+	for _, o := range objs {
+		c, ok := vrt.ClassOf(o)
+		if !ok {
+			continue
+		}
+		for _, x := range m {
+			if x.Class == c && (x.Write || !ro) {
+				return true
+			}
+		}
+	}
+	return false
+}
+
+// memVsOp: plain accesses conflict with a synchronisation operation on the same word
+// (a plain access mixed with an atomic one).
+func memVsOp(m []vrt.MemAcc, objs []uintptr, ro bool) bool {
+	for _, x := range m {
+		for _, o := range objs {
+			if x.Addr == o && (x.Write || !ro) {
+				return true
+			}
+		}
+	}
+	return false
+}
+
 func depEv(a, b *dEvent) bool {
 	if a.ro && b.ro {
 		return false
@@ -292,16 +436,29 @@ func depEv(a, b *dEvent) bool {
 }
 
 // addBacktrack: event j (thread p) races with event i. At the state before i, schedule p
-// if it was enabled there; otherwise a thread q enabled there that has an event between i
+// if it was enabled (and not asleep) there; otherwise a thread q enabled there that has an event between i
 // and j which happens-before j; otherwise every enabled thread.
 func addBacktrack(n *dNode, events []dEvent, i, j, p int, beforeJ []int) {
-	if n.enabledT[p] {
+	// a thread whose alternatives are all asleep at this node cannot be scheduled here (its
+	// next transition first was explored from an ancestor); another initial of the sequence
+	// that has to precede j must be taken instead
+	usable := func(t int) bool {
+		for _, a := range n.alts {
+			if (a.k.tid == t || a.k.partner == t) && !n.sleep[a.k] {
+				return true
+			}
+		}
+		return false
+	}
+	if n.enabledT[p] && usable(p) {
 		n.addThread(p)
 		return
 	}
 	var qs []int
 	for q := range n.enabledT {
-		qs = append(qs, q)
+		if usable(q) {
+			qs = append(qs, q)
+		}
 	}
 	sort.Ints(qs) // deterministic exploration order
 	for _, q := range qs {
